@@ -3,7 +3,7 @@
    and Proofs/PolicyPre.v. *)
 From Coq Require Import List NArith ZArith Bool.
 From RB Require Import Base.Val Model.Policy Model.PolicyTable Model.PolicyPre Spec.PolicySpec
-  Proofs.Policy Proofs.PolicyTable Proofs.PolicyPre.
+  Proofs.Policy Proofs.PolicyTable Proofs.PolicyPre Proofs.PolicyWire Proofs.PolicyWf.
 Import ListNotations.
 Open Scope N_scope.
 
@@ -105,7 +105,29 @@ Check crud_referenced_frozen :
       /\ lookup_pol (p_name p) (t_pols t') = Some p).
 Print Assumptions crud_referenced_frozen.
 
-(* 8. the repaired findings, against the model of the code before each repair *)
+(* 9. on an AS_PATH the wire decoder accepts, the byte-level iterator yields
+      exactly the segments and as_path_length is the unbounded hop count *)
+Theorem wire_aspath_decoded :
+  forall segs a, wire_path segs -> a_data a = DBin (enc_path segs) ->
+    aspath_iter a = Ok (map snd segs) /\ as_path_length a = Ok (hops segs).
+Proof. exact C14_wire_aspath_decoded. Qed.
+Check wire_aspath_decoded :
+  forall segs a, wire_path segs -> a_data a = DBin (enc_path segs) ->
+    aspath_iter a = Ok (map snd segs) /\ as_path_length a = Ok (hops segs).
+Print Assumptions wire_aspath_decoded.
+
+(* 10. every assignment in force after any history of API calls satisfies the
+       well-formedness hypothesis of theorem 1 *)
+Theorem api_built_assignments_wf :
+  forall l a, let t := run_history empty_table l in
+              (t_imp t = Some a \/ t_exp t = Some a) -> wf_assignment a.
+Proof. exact C14_api_built_assignments_wf. Qed.
+Check api_built_assignments_wf :
+  forall l a, let t := run_history empty_table l in
+              (t_imp t = Some a \/ t_exp t = Some a) -> wf_assignment a.
+Print Assumptions api_built_assignments_wf.
+
+(* 11. the repaired findings, against the model of the code before each repair *)
 Theorem prefix_set_longest_match_refuted :
   (exists p n, wf_pset p /\ pset_matches p n /\ pset_matched_pre p n = false) /\
   (exists p n, wf_pset p /\ ~ pset_matches p n /\ pset_matched_pre p n = true).
